@@ -122,7 +122,37 @@ fn one_char(out: &mut Out, h: &str, c: char) {
     emit(out, "char", &args, h, c, d);
 }
 
+/// long inputs: pieces of block-ish length, false starts of the delimiter shortly before the real
+/// one, a leading / trailing delimiter around a long piece (both directions)
+fn stress(cfg: &Cfg, out: &mut Out) {
+    let sizes: Vec<usize> = block_sizes(if cfg.thorough { 130 } else { 66 }).into_iter().filter(|x| *x == 0 || *x == 1 || *x >= 7).collect();
+    for d in ["ab", "--", "é", "::=", "-"] {
+        let first: String = d.chars().take(1).collect();
+        for &l1 in &sizes {
+            for &l2 in &[0usize, 1, 8, 31, 32, 33] {
+                let p1 = "z".repeat(l1);
+                let p2 = "y".repeat(l2);
+                // plain, with a false start right before the delimiter, leading and trailing delimiters
+                one_str(out, &format!("{}{}{}", p1, d, p2), d);
+                one_str(out, &format!("{}{}{}{}", p1, first, d, p2), d);
+                one_str(out, &format!("{}{}{}", d, p1, p2), d);
+                one_str(out, &format!("{}{}{}", p1, p2, d), d);
+                one_str(out, &format!("{}{}{}{}{}", first, d, p1, d, first), d);
+            }
+        }
+    }
+    for c in ['-', 'é', '锈'] {
+        for &l1 in &sizes {
+            let p1 = "é".repeat(l1);
+            one_char(out, &format!("{}{}{}", c, p1, c), c);
+            one_char(out, &format!("{}à{}x{}", p1, c, p1), c);
+        }
+    }
+    let _ = cfg;
+}
+
 pub fn run(cfg: &Cfg, out: &mut Out) {
+    stress(cfg, out);
     // regression corpus: F1 shapes (overlap inside a failed partial match), leading/trailing/adjacent delimiters
     for (h, d) in [("aaab", "aab"), ("abbb", "abb"), (",a,,b,", ","), ("", "a"), ("", ""), ("ab", ""), ("éa锈", ""), ("aaa", "aa"), ("ababa", "aba")] {
         one_str(out, h, d);
